@@ -165,11 +165,15 @@ class OptimizerModule:
                             old_state=old_value,
                             new_state=new_state[i],
                         )
-                        if store_non_tensors
-                        or isinstance(
-                            old_value,
-                            (torch.Tensor, dict, list, tuple, set, OptimizerModule),
+                        if (
+                            store_non_tensors
+                            or isinstance(
+                                old_value,
+                                (torch.Tensor, dict, list, tuple, set, OptimizerModule),
+                            )
                         )
+                        # NOTE: Elements without any tensor are dropped when a state dict is flattened.
+                        and i in new_state
                         else old_value
                     )
                     for i, old_value in enumerate(old_state)
